@@ -138,14 +138,15 @@ impl Ty {
 
 fn ty_strategy() -> impl Strategy<Value = Ty> {
     let leaf = prop_oneof![12 => (0u8..16).prop_map(Ty::Prim), 4 => Just(Ty::Str), 2 => Just(Ty::BoxStr), 2 => Just(Ty::Plain), 1 => (0u8..16).prop_map(Ty::StdLike)];
-    leaf.prop_recursive(5, 48, 4, |inner| {
+    leaf.prop_recursive(7, 64, 5, |inner| {
         prop_oneof![
             2 => inner.clone().prop_map(|t| Ty::Boxed(Box::new(t))),
             2 => inner.clone().prop_map(|t| Ty::Vector(Box::new(t))),
             2 => inner.clone().prop_map(|t| Ty::Opt(Box::new(t))),
             2 => (inner.clone(), inner.clone()).prop_map(|(a, b)| Ty::Res(Box::new(a), Box::new(b))),
             3 => prop::collection::vec(inner.clone(), 0..4).prop_map(Ty::Tuple),
-            2 => (inner.clone(), 0u8..5).prop_map(|(t, n)| Ty::Array(Box::new(t), n)),
+            1 => prop::collection::vec(inner.clone(), 4..8).prop_map(Ty::Tuple),
+            2 => (inner.clone(), prop_oneof![4 => 0u8..5, 1 => 30u8..70]).prop_map(|(t, n)| Ty::Array(Box::new(t), n)),
             1 => inner.clone().prop_map(|t| Ty::BoxSlice(Box::new(t))),
             1 => inner.clone().prop_map(|t| Ty::Gen(Box::new(t))),
             1 => inner.clone().prop_map(|t| Ty::Deep(Box::new(t))),
@@ -347,7 +348,8 @@ fn judge(cases: &[TyCase], v: &Verdicts, out: &mut Acc) {
             2 => "depth2",
             3 => "depth3",
             4 => "depth4",
-            _ => "depth5",
+            5 => "depth5",
+            _ => "depth6_or_more",
         });
         let nontrivial = c.ty.depth() >= 3 && (std_used.len() >= 2 || user_in_std);
         let mut failed = false;
